@@ -4,6 +4,7 @@
 // preconditioner x = A z + b with integer diagonal A.
 #include "vh.hpp"
 #include <memory>
+#include <Eigen/Dense>
 #include "romea_core_common/regression/leastsquares/LeastSquares.hpp"
 
 using namespace romea::core;
@@ -114,13 +115,41 @@ static void exec(vh::Rng & r, vh::Out & out)
   }
 }
 
+// solver covariance on generic real-valued problems (relative residual in units of 1e-12)
+template<class R>
+static void covgen(vh::Rng & r, vh::Out & out)
+{
+  auto u = [&]() {return (double)r.range(-1000000, 1000000) / 1000000.0;};
+  int est = (int)r.range(1, 6), n = (int)r.range(est + 2, est + 40);
+  LeastSquares<R> ls(est);
+  // one solver, two problems in a row: the covariance must describe the LAST one
+  Eigen::MatrixXd Jd; Eigen::VectorXd Ad(est);
+  for (int round = 0; round < 2; ++round) {
+    if (round == 1) {n = std::max(est + 2, n - (int)r.range(0, 10));}
+    ls.setDataSize(n);
+    Jd = Eigen::MatrixXd(n, est);
+    for (int i = 0; i < n; ++i) {for (int k = 0; k < est; ++k) {R v = (R)(u() * 3 + (i % est == k ? 2.0 : 0.0)); ls.getJ()(i, k) = v; Jd(i, k) = (double)v;} ls.getY()(i) = (R)(u() * 5);}
+    typename LeastSquares<R>::Matrix Ac = LeastSquares<R>::Matrix::Zero(est, est);
+    for (int k = 0; k < est; ++k) {R a = (R)(0.25 + (u() + 1) * 2); Ac(k, k) = a; Ad[k] = (double)a;}
+    ls.setPreconditionner(Ac);
+    if (r.coin()) {ls.estimateUsingSVD();} else {ls.estimateUsingCholeskyDecomposition();}
+  }
+  double var = 0.5 + (u() + 1);
+  auto C = ls.computeEstimateCovariance((R)var);
+  Eigen::MatrixXd ref = (double)(R)var * Ad.asDiagonal() * (Jd.transpose() * Jd).inverse() * Ad.asDiagonal();
+  double e = 0; for (int a = 0; a < est; ++a) {for (int b = 0; b < est; ++b) {e = std::max(e, std::fabs((double)C(a, b) - ref(a, b)));}}
+  double rel = e / std::max(1e-12, ref.cwiseAbs().maxCoeff());
+  double x = rel * 1e12;
+  out.put(vh::Ev("covgen").i("float", sizeof(R) == 4).i("est", est).i("res", x < 2e9 ? (long long)std::llround(x) : 2000000000LL));
+}
+
 int main(int argc, char ** argv)
 {
   if (argc != 5 || std::string(argv[1]) != "random") {std::fprintf(stderr, "usage: drive_lsq random seed nexec out\n"); return 3;}
   vh::Rng r(std::strtoull(argv[2], nullptr, 10));
   int n = std::atoi(argv[3]);
   vh::Out out(argv[4]);
-  for (int k = 0; k < n; ++k) {if (k % 2) {exec<float>(r, out);} else {exec<double>(r, out);}}
+  for (int k = 0; k < n; ++k) {if (k % 2) {exec<float>(r, out); covgen<float>(r, out);} else {exec<double>(r, out); covgen<double>(r, out);}}
   std::printf("%lld\n", out.lines);
   return 0;
 }
